@@ -24,6 +24,7 @@ RULE = (
     "cg.lint and the reference checker. Non-trivial (a): exactly one injected fault or zero faults; "
     "(b): producer returned a circuit with >= 3 gates. Distinct by digest."
 )
+RULE += " Added after seeded-change rounds 4-5: strip_blackboxes with ignore_pins as str or list (an input pin or an output pin no instance connects; preferably one whose name contains another pin's name); feed-through child ports in add_subcircuit."
 ASSUMPTIONS = [
     "reference rule checker cgv.refsim.ref_lint written from the rule list in property C20 / lint docstring",
     "node names are strings",
